@@ -171,8 +171,27 @@ impl Incremental {
             self.miss.insert(path.src.clone());
             return false;
         };
-        // Loaded now while `entry` is borrowed; replayed only on success.
+        // Loaded now while `entry` is borrowed; replayed only on success. A file
+        // whose cached warnings cannot be read back must be analyzed afresh, or
+        // the warm run would silently drop them.
+        let has_diagnostics = entry.diagnostics.is_some();
         let diag_bytes = self.store.load_diagnostics(entry);
+        let diagnostics = match (has_diagnostics, diag_bytes) {
+            (false, _) => Vec::new(),
+            (true, Some(x)) => match fragment_cache::restore_diagnostics(&x) {
+                Ok(x) => x,
+                Err(x) => {
+                    debug!("Failed to restore diagnostics ({src}): {x}");
+                    self.miss.insert(path.src.clone());
+                    return false;
+                }
+            },
+            (true, None) => {
+                debug!("Failed to load diagnostics ({src})");
+                self.miss.insert(path.src.clone());
+                return false;
+            }
+        };
         let Ok(fragment) = Fragment::from_bytes(&bytes) else {
             debug!("Failed to decode fragment ({src})");
             self.miss.insert(path.src.clone());
@@ -189,12 +208,7 @@ impl Incremental {
                 self.store.keep(&src);
                 self.restored += 1;
                 self.inputs.remove(&path.src);
-                if let Some(diag_bytes) = diag_bytes {
-                    match fragment_cache::restore_diagnostics(&diag_bytes) {
-                        Ok(diags) => self.restored_diagnostics.extend(diags),
-                        Err(x) => debug!("Failed to restore diagnostics ({src}): {x}"),
-                    }
-                }
+                self.restored_diagnostics.extend(diagnostics);
                 true
             }
             Err(x) => {
